@@ -31,18 +31,22 @@ never a hidden assumption):
     pointed-to member's own type, from m_msg.h, decides the stored width).  Any other pointer use fails the generation.
   * replay_insert (c): its result is the parameter `ins : Z` (0 inserted, > 0 already there, < 0 failure); `errno` after
     it is the parameter `errno_ : Z`; ENOMEM is 12 (Linux).
+  * c->MEMBER for an integer member of struct munge_cred (types read from cred.h; today: is_replay_new) is a state bit of
+    the request.  In a decision function that is declared to thread it, it is the parameter `c_MEMBER : Z` on entry and
+    an extra component of the result (code, m, c_MEMBER) on exit; assignments to it are translated as written.  In the
+    skeletons it is read through `op_cred ops "MEMBER"`.  `c->msg` only names the message.
   * a call with a side effect (the ones above and, in the skeletons, the stage calls and m_msg_send) may appear only
     where it is evaluated unconditionally (not to the right of && or ||, not in a ?: arm), at most one per
     condition/assignment; it is hoisted in front of the condition as a `let`.
   * the skeletons (enc_process_msg, dec_process_msg) are translated in "pipe" mode, polymorphic in the state S of one
     request (message + credential aux data + replay hash), over a record of operations
-        pipe_ops S = { op_msg : S -> msg;  op_stage : string -> S -> Z * S;  op_reset : S -> S;
-                       op_send : S -> Z * S;  op_unplay : S -> S }
+        pipe_ops S = { op_msg : S -> msg;  op_cred : string -> S -> Z;  op_stage : string -> S -> Z * S;
+                       op_reset : S -> S;  op_send : S -> Z * S;  op_unplay : S -> S }
     - `NAME (m)` / `NAME (c)` for NAME = cred_create or any dec_*/enc_* function is `op_stage ops "NAME"`: the C return
       value (int; for cred_create the pointer, 0 = NULL) and the new state;
     - `c = cred_create (m)` inside a condition: an assignment expression to the local `c` (pointers held in locals are
       integers, NULL = 0);
-    - m->member is read through op_msg; `m_msg_reset (m);` is op_reset; `m_msg_send (m, TYPE, 0)` is op_send (its
+    - m->member is read through op_msg, c->member through op_cred; `m_msg_reset (m);` is op_reset; `m_msg_send (m, TYPE, 0)` is op_send (its
       munge_err_t value and the new state; TYPE and the length limit are not translated); `replay_remove (c);` is
       op_unplay; `cred_destroy (c);` is dropped (it releases the aux data; nothing of it is observable afterwards);
     - `return (rc)` is (rc, state).
@@ -342,10 +346,20 @@ def strip_casts(e, kinds=("ptr", "void")):
 
 
 class Fn:
-    def __init__(self, name, locals_, msgtypes, mode="msg", env=(), ptrs=None):
+    def __init__(self, name, locals_, msgtypes, mode="msg", env=(), ptrs=None, credtypes=None, cred=()):
         self.name, self.locals, self.msgtypes = name, locals_, msgtypes      # locals: name -> type
         self.mode, self.env, self.ptrs = mode, set(env), dict(ptrs or {})    # ptrs: pointer local -> lvalue it points to
+        self.credtypes, self.cred = dict(credtypes or {}), list(cred)        # cred: members of struct munge_cred threaded
+        for f in self.cred:                                                  # through this function, as pseudo-locals
+            if f not in self.credtypes:
+                raise TErr("%s: struct munge_cred has no integer member %s" % (name, f))
+            self.locals["c__" + f] = self.credtypes[f]
         self.nv = 0
+
+    def credmem(self, f):
+        if self.mode == "msg" and f in self.cred:
+            return "c__" + f
+        raise TErr("%s: member c->%s is not part of this function's translated environment" % (self.name, f))
 
     def need(self, key, what):
         if key not in self.env:
@@ -491,6 +505,13 @@ class Fn:
                 if self.mode == "pipe":
                     return "(Z.of_N (%s (op_msg ops m)))" % MSG_FIELD[e[2]], self.msgtypes[e[2]]
                 return "(Z.of_N (%s m))" % MSG_FIELD[e[2]], self.msgtypes[e[2]]
+            if e[1] == "c":
+                if self.mode == "pipe":
+                    if e[2] not in self.credtypes:
+                        raise TErr("%s: member c->%s is not modelled" % (self.name, e[2]))
+                    return "(op_cred ops \"%s\"%%string m)" % e[2], self.credtypes[e[2]]
+                n = self.credmem(e[2])
+                return "l_" + n, self.locals[n]
             if e[1] == "conf" and self.mode == "msg":
                 if e[2] not in CONF_FIELD:
                     raise TErr("%s: conf->%s is not modelled" % (self.name, e[2]))
@@ -621,11 +642,12 @@ class Fn:
         if self.mode == "pipe":
             t, ty = self.val(e)
             return "(%s, m)" % conv(t, ty, "int")
+        tail = "".join(", l_c__" + f for f in self.cred)
         if e == ("num", 0):
-            return "(0%N, m)"
+            return "(0%%N, m%s)" % tail
         if e[0] == "call" and e[1] == "m_msg_set_err" and len(e[2]) >= 2 and e[2][0] == ("var", "m") and \
                 e[2][1][0] == "var" and e[2][1][1] in ERRS and e[2][1][1] != "EMUNGE_SUCCESS":
-            return "(%s, m)" % ERRS[e[2][1][1]]
+            return "(%s, m%s)" % (ERRS[e[2][1][1]], tail)
         raise TErr("%s: return value outside the subset: %s" % (self.name, str(e)[:80]))
 
     def assign(self, s):
@@ -637,6 +659,8 @@ class Fn:
         if lhs[0] == "mem" and lhs[1] == "m" and lhs[2] in MSG_FIELD and lhs[2] in self.msgtypes and self.mode == "msg" \
                 and lhs[2] != "error_num":
             return lets + [self.store(("member", lhs[2]), t, ty)]
+        if lhs[0] == "mem" and lhs[1] == "c":
+            return lets + [self.store(("local", self.credmem(lhs[2])), t, ty)]
         raise TErr("%s: assignment to %s" % (self.name, str(lhs)))
 
     def falls(self, s):
@@ -704,7 +728,7 @@ def func_text(src, name):
     return m.group(2)
 
 
-def translate(src, name, msgtypes, env=(), mode="msg"):
+def translate(src, name, msgtypes, env=(), mode="msg", credtypes=None, cred=()):
     body = func_text(src, name)
     p = P(lex(body))
     stmts = []
@@ -732,7 +756,8 @@ def translate(src, name, msgtypes, env=(), mode="msg"):
             else:
                 locals_[nm] = CTYPE[ty]
         keep.append(s)
-    fn = Fn(name, locals_, msgtypes, mode, env, ptrs)
+    plain = list(locals_)
+    fn = Fn(name, locals_, msgtypes, mode, env, ptrs, credtypes, cred)
     # top-level assignments to pointer locals bind them (before any use)
     keep2 = []
     for s in keep:
@@ -749,12 +774,14 @@ def translate(src, name, msgtypes, env=(), mode="msg"):
         if st[0] == "label":
             labels[st[1]] = keep[i + 1:]
     main = keep                      # control falls through a label into the statements after it
-    init = "".join("  let l_%s := 0 in\n" % n for n in locals_)
+    init = "".join("  let l_%s := 0 in\n" % n for n in plain) + \
+        "".join("  let l_c__%s := c_%s in\n" % (f, f) for f in fn.cred)
     term = fn.seq(main, labels, 2)
     if mode == "pipe":
         return "Definition src_%s {S : Type} (ops : pipe_ops S) (m : S) : Z * S :=\n%s%s." % (name, init, term)
-    params = "".join(" " + d for k, d in ENV_PARAMS if k in fn.env)
-    return "Definition src_%s (cf : conf)%s (m : msg) : N * msg :=\n%s%s." % (name, params, init, term)
+    params = "".join(" " + d for k, d in ENV_PARAMS if k in fn.env) + "".join(" (c_%s : Z)" % f for f in fn.cred)
+    rty = "N * msg" + " * Z" * len(fn.cred)
+    return "Definition src_%s (cf : conf)%s (m : msg) : %s :=\n%s%s." % (name, params, rty, init, term)
 
 
 def msg_types(hsrc):
@@ -767,15 +794,26 @@ def msg_types(hsrc):
     return out
 
 
+def cred_types(hsrc):
+    m = re.search(r"struct munge_cred \{(.*?)\n\};", hsrc, re.S)
+    if not m:
+        raise TErr("struct munge_cred not found in cred.h")
+    out = {}
+    for ty, nm in re.findall(r"^\s*(uint8_t|uint32_t|int|unsigned)\s+(\w+)\s*;", re.sub(r"/\*.*?\*/", "", m.group(1), flags=re.S), re.M):
+        out[nm] = CTYPE[ty]
+    return out
+
+
 PIPE_OPS = """(* the operations a request-processing skeleton is translated over: S is the state of one request *)
 Record pipe_ops (S : Type) : Type := {
   op_msg : S -> msg;                   (* the m_msg the members m->... are read from *)
+  op_cred : string -> S -> Z;          (* an integer member c->... of the request's struct munge_cred, by its C name *)
   op_stage : string -> S -> Z * S;     (* a stage function, by its C name: its return value and the new state *)
   op_reset : S -> S;                   (* m_msg_reset (m) *)
   op_send : S -> Z * S;                (* m_msg_send (m, ...): its munge_err_t value and the new state *)
   op_unplay : S -> S                   (* replay_remove (c) *)
 }.
-Arguments op_msg {S}. Arguments op_stage {S}. Arguments op_reset {S}. Arguments op_send {S}. Arguments op_unplay {S}.
+Arguments op_msg {S}. Arguments op_cred {S}. Arguments op_stage {S}. Arguments op_reset {S}. Arguments op_send {S}. Arguments op_unplay {S}.
 """
 
 
@@ -783,6 +821,7 @@ def gen(api):
     R = api.REPO
     try:
         mt = msg_types(open(os.path.join(R, "src/libcommon/m_msg.h")).read())
+        ct = cred_types(open(os.path.join(R, "src/munged/cred.h")).read())
         dsrc = open(os.path.join(R, "src/munged/dec.c")).read()
         esrc = open(os.path.join(R, "src/munged/enc.c")).read()
         defs = [translate(esrc, "enc_validate_msg", mt),
@@ -795,9 +834,9 @@ def gen(api):
                 translate(esrc, "enc_authenticate", mt, env=["auth_recv"]),
                 translate(dsrc, "dec_check_retry", mt),
                 translate(esrc, "enc_check_retry", mt),
-                translate(dsrc, "dec_validate_replay", mt, env=["replay_insert", "errno"]),
-                translate(dsrc, "dec_process_msg", mt, mode="pipe"),
-                translate(esrc, "enc_process_msg", mt, mode="pipe")]
+                translate(dsrc, "dec_validate_replay", mt, env=["replay_insert", "errno"], credtypes=ct, cred=["is_replay_new"]),
+                translate(dsrc, "dec_process_msg", mt, mode="pipe", credtypes=ct),
+                translate(esrc, "enc_process_msg", mt, mode="pipe", credtypes=ct)]
     except (TErr, OSError, IndexError) as e:
         raise api.GenError("cfun: " + str(e))
     out = "\n".join([
